@@ -13,7 +13,17 @@ Decided (io/compat.py, version.py, io/io.py):
         a version that is neither current nor in the table raises ValueError whose message carries the offending
         version; known versions are converted by ``converters[version](data)`` and the result replaces the data;
         ``FlowReader.stream`` turns that ValueError into FlowReadException.
-NOT decided: what each converter does to the state (value-level migration), the historical dump files.
+  R38.3 cross-record migration state ("every flow file written by a supported older version loads into valid current
+        flows"): some historical formats spread one current flow over several records (format <= 11: a WebSocket
+        handshake record and a later websocket record that refers to it by id; format <= 4: flows sharing a connection),
+        so converters keep module-level containers between records.  Records of different connections interleave
+        arbitrarily in old dumps, hence such a container may only be touched BY KEY from the code reachable from
+        ``converters`` / ``migrate_flow``: keyed insert (``X[k] = v`` / ``setdefault`` / ``update``), keyed lookup
+        (``X[k]`` / ``get`` / ``k in X``) and removal by the lookup that consumes the entry (``pop(k)`` whose value is
+        used, ``del X[k]`` next to a read of the same key).  Bulk or unkeyed eviction (``clear()``, ``popitem()``,
+        rebinding the global, a discarded ``pop``) loses the partner of a record that arrives later; a container that is
+        consumed but never filled loses every partner.  Any other use (``len``, iteration, aliasing) is refused (exit 2).
+NOT decided: what each converter does to the rest of the state (value-level migration), the historical dump files.
 Narrowed from DESIGN: "message distinguishes newer versions" is reduced to "the message contains the offending
 version" - the exact wording is not a necessary condition of an explanatory error.
 """
@@ -22,6 +32,8 @@ from __future__ import annotations
 
 import ast
 
+from ..core import AnalysisError
+from ..core import norm
 from ..model import attr_chain
 from ..model import last_attr
 from ..selftest import Mutant
@@ -35,10 +47,12 @@ from ._helpers_E import show
 PROP = "C38"
 REG = {
     "strength": "partial",
-    "technique": "literal-table chain analysis (converters x version constants) + path enumeration of migrate_flow and FlowReader.stream",
+    "technique": "literal-table chain analysis (converters x version constants) + path enumeration of migrate_flow and FlowReader.stream + use classification of the "
+    "module-level containers reachable from the converters",
     "claim": "every historical format version in compat.converters is carried, step by step and without cycle or gap, to "
     "version.FLOW_FORMAT_VERSION under the version key migrate_flow reads; migrate_flow is the identity on current-version states, "
-    "rejects unknown versions with a ValueError naming the version, and FlowReader.stream reports it as FlowReadException.",
+    "rejects unknown versions with a ValueError naming the version, and FlowReader.stream reports it as FlowReadException; the containers converters "
+    "keep between records (WebSocket handshakes, connection ids) are only inserted into, looked up and consumed by key - never evicted in bulk.",
     "note": "Does not decide what the converters do to the rest of the state. Loops unrolled twice.",
 }
 
@@ -62,10 +76,133 @@ def _normaliser(ctx, mf):
                     return tgt.id, v.slice.upper.value
     ctx.require(False, "migrate_flow: version normalisation tuple(v)[:N] not found (shape not modelled)")
 
+_KEYED_READ = {"get", "setdefault", "__getitem__", "__contains__"}
+_KEYED_STORE = {"setdefault", "update", "__setitem__"}
+_EVICT = {"clear": "clear() drops every pending entry", "popitem": "popitem() drops an entry chosen by insertion order, not by the record that refers to it"}
+
+
+def _cross_record_state(ctx, rows):
+    """R38.3: classify every use of a module-level mutable container in the code reachable from converters/migrate_flow."""
+    mod = ctx.model.module(CP)
+    containers = {}
+    for st in mod.tree.body:
+        tg, val = None, None
+        if isinstance(st, ast.Assign) and len(st.targets) == 1 and isinstance(st.targets[0], ast.Name):
+            tg, val = st.targets[0].id, st.value
+        elif isinstance(st, ast.AnnAssign) and isinstance(st.target, ast.Name) and st.value is not None:
+            tg, val = st.target.id, st.value
+        if tg is None or tg == "converters":
+            continue
+        if isinstance(val, (ast.Dict, ast.List, ast.Set)) or (isinstance(val, ast.Call) and last_attr(val.func) in ("dict", "list", "set", "OrderedDict", "defaultdict", "deque", "WeakValueDictionary")):
+            containers[tg] = st
+    funcs = {d.name: d for d in mod.tree.body if isinstance(d, (ast.FunctionDef, ast.AsyncFunctionDef))}
+    reach, todo = {}, [f for f in set(rows.values()) | {"migrate_flow"} if f in funcs]
+    while todo:
+        name = todo.pop()
+        if name in reach:
+            continue
+        reach[name] = funcs[name]
+        for n in ast.walk(funcs[name]):
+            if isinstance(n, ast.Name) and n.id in funcs and n.id not in reach:  # called or passed on: both may run it
+                todo.append(n.id)
+    unknown = []
+    uses = {c: {"store": [], "read": [], "consume": []} for c in containers}
+    bad = False
+    for fname in sorted(reach):
+        fn = reach[fname]
+        globs = {g for n in ast.walk(fn) if isinstance(n, ast.Global) for g in n.names}
+        shadow = {a.arg for n in ast.walk(fn) if isinstance(n, ast.arguments) for a in n.posonlyargs + n.args + n.kwonlyargs + ([n.vararg] if n.vararg else []) + ([n.kwarg] if n.kwarg else [])}
+        keyed_reads = set()
+        dels = []
+        for n in ast.walk(fn):
+            if not (isinstance(n, ast.Name) and n.id in containers):
+                continue
+            c = n.id
+            if c in shadow:
+                unknown.append(f"{fname}: parameter {c} shadows the module-level container")
+                continue
+            p = n._parent
+            if isinstance(n.ctx, (ast.Store, ast.Del)):
+                if c in globs:
+                    bad = True
+                    ctx.fail("R38.3", (CP, fname, n), f"{fname}: rebinds {c}",
+                             f"the converter replaces the container {c} that carries state from earlier records: every pending entry is dropped, so a later record "
+                             "that refers to an earlier one (e.g. the websocket record of an interleaved connection) loses its partner and loads as a wrong flow")
+                else:
+                    unknown.append(f"{fname}: local name {c} shadows the module-level container")
+                continue
+            if isinstance(p, ast.Subscript) and p.value is n and not isinstance(p.slice, ast.Slice):
+                k = norm(p.slice)
+                if isinstance(p.ctx, ast.Store):
+                    uses[c]["store"].append(f"{fname}: {c}[{k}] = ...")
+                elif isinstance(p.ctx, ast.Load):
+                    uses[c]["read"].append(f"{fname}: {c}[{k}]")
+                    keyed_reads.add((c, k))
+                else:
+                    dels.append((c, k, p))
+                continue
+            if isinstance(p, ast.Attribute) and p.value is n and isinstance(getattr(p, "_parent", None), ast.Call) and p._parent.func is p:
+                call, meth = p._parent, p.attr
+                if meth in _EVICT:
+                    bad = True
+                    ctx.fail("R38.3", (CP, fname, call), f"{fname}: {c}.{meth}()",
+                             f"{_EVICT[meth]}: records of different connections interleave in old dumps, so a record that refers to an evicted entry "
+                             "(e.g. the websocket record whose handshake was written before another handshake) is migrated without its partner and loads as a wrong flow")
+                    continue
+                if meth == "pop" and call.args:
+                    k = norm(call.args[0])
+                    if isinstance(getattr(call, "_parent", None), ast.Expr):
+                        bad = True
+                        ctx.fail("R38.3", (CP, fname, call), f"{fname}: {c}.pop({k}) discarded",
+                                 "an entry is removed without being joined to the record that refers to it: that record later loads without its partner")
+                    else:
+                        uses[c]["consume"].append(f"{fname}: {c}.pop({k})")
+                        keyed_reads.add((c, k))
+                    continue
+                if meth in _KEYED_READ | _KEYED_STORE and (call.args or call.keywords):
+                    if meth in _KEYED_STORE:
+                        uses[c]["store"].append(f"{fname}: {c}.{meth}(...)")
+                    if meth in _KEYED_READ:
+                        uses[c]["read"].append(f"{fname}: {c}.{meth}({norm(call.args[0]) if call.args else ''})")
+                        if call.args:
+                            keyed_reads.add((c, norm(call.args[0])))
+                    continue
+                unknown.append(f"{fname}: {norm(call)[:80]}")
+                continue
+            if isinstance(p, ast.Compare) and len(p.ops) == 1 and isinstance(p.ops[0], (ast.In, ast.NotIn)) and p.comparators[0] is n:
+                uses[c]["read"].append(f"{fname}: {norm(p.left)} in {c}")
+                keyed_reads.add((c, norm(p.left)))
+                continue
+            unknown.append(f"{fname}: {norm(p)[:80]}")
+        for c, k, node in dels:
+            if (c, k) in keyed_reads:
+                uses[c]["consume"].append(f"{fname}: del {c}[{k}]")
+            else:
+                bad = True
+                ctx.fail("R38.3", (CP, fname, node), f"{fname}: del {c}[{k}] without a lookup of that key",
+                         "an entry is removed without being joined to the record that refers to it: that record later loads without its partner")
+    if bad:
+        return
+    if unknown:
+        raise AnalysisError("R38.3: use of cross-record migration state that is not a keyed operation (not modelled): " + "; ".join(unknown[:4]))
+    live = 0
+    for c, u in sorted(uses.items()):
+        if not (u["store"] or u["read"] or u["consume"]):
+            continue
+        live += 1
+        if (u["read"] or u["consume"]) and not u["store"]:
+            ctx.fail("R38.3", (CP, "<module>", containers[c]), f"{c}: looked up but never filled",
+                     f"converters look entries up in {c} ({(u['consume'] + u['read'])[0]}) but no reachable converter inserts any: every record that refers to an earlier record loses its partner")
+            continue
+        ctx.ok("R38.3", f"{c}: keyed only - {len(u['store'])} insert(s), {len(u['read'])} lookup(s), {len(u['consume'])} consuming removal(s); no bulk eviction in {len(reach)} reachable functions")
+    ctx.require(live >= 1, "R38.3: no module-level container is used by the converters any more (anchor moved)")
+
+
 
 def check(ctx):
     ctx.rule("R38.1", "converter table: constant next versions, chain from every key reaches FLOW_FORMAT_VERSION (no cycle/gap, ints +1, key kind consistent with what migrate_flow reads)")
     ctx.rule("R38.2", "migrate_flow: identity on the current version, ValueError naming the version for unknown ones, conversion result replaces the data; stream maps it to FlowReadException")
+    ctx.rule("R38.3", "cross-record migration state (module-level containers reachable from converters) is inserted into, looked up and consumed by key only - no bulk/unkeyed eviction, never consumed without being filled")
     m = ctx.model
     cur = m.literal(VR, "FLOW_FORMAT_VERSION")
     ctx.require(isinstance(cur, int) and not isinstance(cur, bool), f"FLOW_FORMAT_VERSION is not an int: {cur!r}")
@@ -301,8 +438,12 @@ def check(ctx):
               f"the rejection of an unknown flow format version leaves stream() as {sorted(outcomes) or 'an unhandled ValueError'} instead of FlowReadException",
               desc="stream: ValueError from migrate_flow -> FlowReadException")
 
+    # ---- R38.3 state carried between records
+    ctx.guard(_cross_record_state, ctx, rows)
+
     expect(ctx, "R38.1", 29 + 1)
     expect(ctx, "R38.2", 3)
+    expect(ctx, "R38.3", 3)
 
 
 MUTANTS = [
@@ -323,5 +464,14 @@ MUTANTS = [
     Mutant("converter-before-version-check", CP, "        if flow_version == version.FLOW_FORMAT_VERSION:\n            break\n        elif flow_version in converters:\n            flow_data = converters[flow_version](flow_data)\n",
            "        if flow_version == version.FLOW_FORMAT_VERSION:\n            flow_data = converters[flow_version](flow_data)\n            break\n        elif flow_version in converters:\n            flow_data = converters[flow_version](flow_data)\n", "R38.2"),
     Mutant("message-without-version", CP, "                    version.MITMPROXY,\n                    flow_version,\n", "                    version.MITMPROXY,\n                    \"?\",\n", "R38.2"),
+    # seed C38b: the handshake cache is emptied before a new handshake is remembered
+    Mutant("handshake-cache-cleared-on-insert", CP, "        _websocket_handshakes[data[\"id\"]] = copy.deepcopy(data)\n",
+           "        _websocket_handshakes.clear()\n        _websocket_handshakes[data[\"id\"]] = copy.deepcopy(data)\n", "R38.3"),
+    Mutant("handshake-cache-rebound", CP, "        _websocket_handshakes[data[\"id\"]] = copy.deepcopy(data)\n",
+           "        global _websocket_handshakes\n        _websocket_handshakes = {data[\"id\"]: copy.deepcopy(data)}\n", "R38.3"),
+    Mutant("handshake-cache-bounded-popitem", CP, "        _websocket_handshakes[data[\"id\"]] = copy.deepcopy(data)\n",
+           "        if _websocket_handshakes:\n            _websocket_handshakes.popitem()\n        _websocket_handshakes[data[\"id\"]] = copy.deepcopy(data)\n", "R38.3"),
+    Mutant("handshake-never-remembered", CP, "    if \"websocket\" in data[\"metadata\"]:\n        _websocket_handshakes[data[\"id\"]] = copy.deepcopy(data)\n\n", "", "R38.3"),
+    Mutant("connection-ids-forgotten-per-flow", CP, "def convert_4_5(data):\n    data[\"version\"] = 5\n", "def convert_4_5(data):\n    data[\"version\"] = 5\n    server_connections.clear()\n", "R38.3"),
     Mutant("rejection-not-mapped", IO, "raise exceptions.FlowReadException(e) from e\n            except (\n                ValueError,\n", "raise\n            except (\n", "R38.2"),
 ]
